@@ -44,6 +44,43 @@ def compile_ssbscript(case: dict) -> dict:
     return out
 
 
+def handwritten_ssbscript() -> list[str]:
+    """SsbScript as a person writes it: labels at every place incl. routine ends and before the first op of the next
+    routine, several labels in a row, unused labels, jumps between routines, alias routines"""
+    import itertools
+    out = []
+    places = ["start0", "mid0", "end0", "start1", "end1"]
+    for k in range(0, 4):
+        for sel in itertools.combinations(places, k):
+            for jumps in ([], ["Jump"], ["Branch", "Call"]):
+                lab = lambda p: "".join(f" @l_{p}; @m_{p};" if p in sel and len(sel) == 1 else (f" @l_{p};" if p in sel else ""))
+                tgts = [p for p in sel if not p.startswith("end")] or []
+                js = ""
+                for i, j in enumerate(jumps):
+                    if tgts:
+                        t = tgts[i % len(tgts)]
+                        js += f" {j}({'$V, 1, ' if j == 'Branch' else ''}@l_{t});"
+                src = (f"def 0 {{{lab('start0')} a();{js}{lab('mid0')} b();{lab('end0')} }}\n"
+                       f"def 1 for actor X {{{lab('start1')} c(); Return();{lab('end1')} }}\n")
+                out.append(src)
+                out.append(src + "def 2 { alias previous; }\n")
+    return out
+
+
+def compile_handwritten_ssbscript(text: str) -> dict:
+    from explorerscript.ssb_script.ssb_converting.ssb_compiler import SsbScriptSsbCompiler
+    out = {"status": "ok", "err": "", "ops": [], "infos": [], "ninfos": 0, "ncoros": 0, "lang": "ssbscript-handwritten", "src": text}
+    try:
+        c = SsbScriptSsbCompiler()
+        c.compile(text)
+        out["ops"] = canon.ops_recs(c.routine_ops, jump_last=True)
+        out["infos"] = canon.infos_recs(c.routine_infos, c.named_coroutines)
+        out["ninfos"], out["ncoros"] = len(c.routine_infos), len(c.named_coroutines)
+    except Exception as ex:
+        out["status"], out["err"] = type(ex).__name__, str(ex)[:200]
+    return out
+
+
 def assemble(rep: common.Report, results: list[dict], tag: str) -> list[int]:
     cases = [{"ops": r["ops"], "nInfos": r["ninfos"], "nCoros": r["ncoros"],
               "infoKinds": [i["kind"] for i in r["infos"]], "checkArity": r.get("checkArity", True)} for r in results]
@@ -90,6 +127,7 @@ def main() -> int:
         s["via_exps"] = i % 3 == 0
         sets.append(s)
     sres = [r for r in pmap(compile_ssbscript, sets) if r.get("status") == "ok"]
+    sres += [r for r in pmap(compile_handwritten_ssbscript, handwritten_ssbscript()) if r.get("status") == "ok"]
     results += sres
     bad = set(assemble(rep, results, "main"))
     # binding self-test: duplicate an offset / dangle a jump / leave a pseudo op / misalign the tables
